@@ -23,6 +23,8 @@ Export == IF Done THEN PrintT(ToJson([cfg |-> cfg, exp |-> ObsOf, viol |-> Viol]
 
 AllShapes == Shapes
 FirstOnly == {[ids |-> "all", prime |-> "first"]}
+TwoShapes == {[ids |-> "all", prime |-> "first"], [ids |-> "all", prime |-> "none"]}
+PrimedShapes == {[ids |-> "all", prime |-> "first"], [ids |-> "all", prime |-> "every"]}
 
 \* reachability witnesses (each must be VIOLATED, otherwise the model is vacuous)
 NeverResumed == ~(outcome = "resp" /\ Len(recon) >= 2)
